@@ -304,3 +304,174 @@ class after_recycle:
     entry = lambda self: wrap_bool(graphdb.exists(db_of(self), "step", I(self.i)))
     finish = _ar_finish
     modifies = []
+
+
+# ---------------------------------------------------------------- rescan_nglobs: a registration is persisted only if ITS match set changed
+
+MS = "MatchSet"
+
+
+def fsglob(pattern, subs) -> tm.T:
+    """The set of existing paths that NamedGlob(pattern, subs).glob() finds: a function of the pattern, its
+    substitutions and the file system (which does not change during the scan)."""
+    d = cur().decls
+    d.sort(MS)
+    d.sort("Subs")
+    return d.fun("fs.glob", [STR, "Subs"], MS)(S(pattern), subs.t)
+
+
+class _MSet:
+    """A set of paths as rescan_nglobs uses it: difference, truth value, accumulation."""
+
+    def __init__(self, t):
+        self.t = t
+
+    def __sub__(self, other):
+        d = cur().decls
+        _ms_axiom(self.t, other.t)
+        return _MSet(d.fun("ms.diff", [MS, MS], MS)(self.t, other.t))
+
+    def __symtruth__(self):
+        return tm.Not(cur().decls.fun("ms.empty", [MS], BOOL)(self.t))
+
+    def __bool__(self):
+        return cur().fork(self.__symtruth__())
+
+    def update(self, other):
+        return None
+
+    def __havoc__(self, label):
+        self.t = cur().fresh(cur().fresh_name(label), MS)
+
+
+def _ms_axiom(a: tm.T, b: tm.T):
+    """Extensionality: two sets are equal iff both differences are empty."""
+    d = cur().decls
+    diff, empty = d.fun("ms.diff", [MS, MS], MS), d.fun("ms.empty", [MS], BOOL)
+    cur().pc.append(tm.Iff(tm.Eq(a, b), tm.And(empty(diff(a, b)), empty(diff(b, a)))))
+
+
+class _FreshGlob:
+    """NamedGlob(pattern, subs) built for a fresh scan."""
+
+    def __init__(self, pattern, subs=None):
+        if subs is None:  # the default of NamedGlob: no substitutions
+            cur().decls.sort("Subs")
+            subs = sym.SymOpaque(cur().decls.const("subs.none", "Subs"))
+        self.pattern, self.subs = pattern, subs
+        self.mset = None
+
+    def glob(self):
+        self.mset = fsglob(self.pattern, self.subs)
+        cur().event("fs.scan", pattern=self.pattern, subs=self.subs)
+
+    def files(self):
+        q = ty.SeqOf(ty.Str).fresh(cur().fresh_name("scan.files"))
+        q.mset = self.mset
+        return q
+
+
+def _rn_set(*a):
+    if not a:
+        return _MSet(cur().fresh(cur().fresh_name("acc"), MS))
+    q = a[0]
+    if getattr(q, "mset", None) is None:
+        raise sym.Unsupported("set() of a path list whose match set is unknown")
+    return _MSet(q.mset)
+
+
+class _FreshSpec(ty.Rec):
+    """_FreshGlob objects stored in a list: pattern, substitutions and scanned match set."""
+
+    def make(self, values):
+        g = _FreshGlob(values["pattern"], values["subs"])
+        g.mset = values["mset"].t if isinstance(values["mset"], sym.SymOpaque) else values["mset"]
+        return g
+
+    def arr_store(self, state, kt, value):
+        vals = dict(pattern=value.pattern, subs=value.subs, mset=sym.SymOpaque(value.mset))
+        return {f: sp.arr_store(state[f], kt, vals[f]) for f, sp in self.fields.items()}
+
+
+FreshRec = _FreshSpec(_FreshGlob, dict(pattern=ty.Str, subs=ty.Opaque("Subs"), mset=ty.Opaque(MS)), name="NamedGlob")
+ChangedSeq = ty.SeqOf(ty.TupleOf(ty.Int, ty.Opaque("StepRef"), FreshRec))
+
+
+def _reg_facts(nglob_i):
+    d = cur().decls
+    return (d.fun("nglob.pattern_of", [INT], STR)(nglob_i), d.fun("nglob.subs_of", [INT], "Subs")(nglob_i),
+            d.fun("nglob.recorded_of", [INT], MS)(nglob_i))
+
+
+def _rn_inv(e):
+    """Every entry queued for persisting carries the fresh scan of its own registration, and that scan differs from
+    the recorded match set."""
+    q = e.changed_nglobs
+    if not isinstance(q, sym.SymSeq):
+        return True
+    k = I(e.q.k)
+    nglob_i, _step, ng = q.elem(k)
+    reg = _rn_reg_of(e, nglob_i)
+    pat, subs, rec = _reg_facts(reg)
+    ms = ng.mset.t if isinstance(ng.mset, sym.SymOpaque) else ng.mset
+    return wrap_bool(tm.Implies(tm.And(tm.Le(tm.mk_int(0), k), tm.Lt(k, q.length)),
+                                tm.And(tm.Eq(ms, cur().decls.fun("fs.glob", [STR, "Subs"], MS)(pat, subs)), tm.Ne(ms, rec))))
+
+
+def _rn_reg_of(e, nglob_i):
+    """The registration (row) an nglob id belongs to: ids identify registrations (assumed key of the listing)."""
+    return cur().decls.fun("nglob.reg_of_id", [INT], INT)(I(nglob_i))
+
+
+def _rn_persist_guard(e, workflow):
+    nglob_i, ng = e.nglob_i, e.ng
+    reg = cur().decls.fun("nglob.reg_of_id", [INT], INT)(I(nglob_i))
+    pat, subs, rec = _reg_facts(reg)
+    ms = ng.mset.t if isinstance(ng.mset, sym.SymOpaque) else ng.mset
+    return wrap_bool(tm.And(tm.Eq(ms, cur().decls.fun("fs.glob", [STR, "Subs"], MS)(pat, subs)), tm.Ne(ms, rec)))
+
+
+@contract("stepup/core/workflow.py::Workflow.persist_nglob_matches", props=[], verify=False,
+          note="stores the new matches of a registration, deletes the hash of its step and marks it pending")
+class persist_nglob_matches:
+    modifies = []
+
+    @staticmethod
+    def ensures(self, nglob_i, step, ng):
+        cur().event("persist_nglob", nglob_i=nglob_i, step=step, ng=ng)
+        return True
+
+
+def _rn_workflow(args):
+    cur().decls.sort(MS)
+    cur().decls.sort("Subs")
+    wf = ty.ObjOf(common.Workflow, dict(), name="Workflow").fresh("workflow")
+    wf._fields["db"] = DbStub("db", [])
+    return wf
+
+
+def _rn_listing_facts(e):
+    """Facts of the listing (assumed contract of nglob_registrations): the id of a listed registration identifies it."""
+    regs = e.registrations if hasattr(e, "registrations") else None
+    return []
+
+
+def _rn_loop0_facts(e):
+    # the j-th listed registration is the one its id names
+    j = I(e.i)
+    nglob_i, old_ng, _step = e.seq.elem(j)
+    return [wrap_bool(tm.Eq(cur().decls.fun("nglob.reg_of_id", [INT], INT)(I(nglob_i)), old_ng.reg))]
+
+
+@contract("stepup/core/startup.py::rescan_nglobs", props=["C04", "C17"])
+class rescan_nglobs:
+    """A registration's matches are persisted (its step's hash dropped, the step made pending) only if a fresh scan of
+    that registration's own pattern and substitutions differs from its recorded matches."""
+
+    args = dict(workflow=_rn_workflow, reporter=ty.Make(Reporter))
+    env = dict(NamedGlob=_FreshGlob, set=_rn_set, sorted=lambda x: [], list=lambda x: x)
+    events = {"persist_nglob": _rn_persist_guard}
+    modifies = []
+    loops = {0: LoopSpec(locals=dict(changed_nglobs=ChangedSeq), forall=dict(k=ty.Int), invariant=_rn_inv),
+             1: LoopSpec(), 2: LoopSpec(),
+             3: LoopSpec(forall=dict(k=ty.Int), invariant=_rn_inv, havoc=("workflow",), modifies={"workflow": ["db"]})}
